@@ -16,4 +16,5 @@ let names () =
 let () =
   match Sys.argv.(1) with
   | "names" -> names ()
+  | "fs" -> Fsdrv.run ()
   | m -> prerr_endline ("unknown mode " ^ m); exit 2
